@@ -87,7 +87,7 @@ SPEC4 = {
     "get_definitions": "{start//define/0:LABEL: float(start//define/1:SIGNED_NUMBER)}",
     "get_aliases": "{start//alias/0:LABEL: start//alias/1:LABEL}",
     "get_charge_conjugate_defs": "{start//chargeconj/0:LABEL: start//chargeconj/1:LABEL}",
-    "get_model_aliases": "{start//model_alias//tokens: [start//model_alias//tokens]}",
+    "get_model_aliases": "{start//model_alias//tokens: [1:][start//model_alias//tokens@[1:]]}",     # first token = alias name, the others = model + options
     "get_particle_property_definitions":
         "{start//particle_def/0:LABEL: {('mass' | 'width'): ((Particle.from_evtgen_name((start//particle_def/0:LABEL | "
         "{start//alias/0:LABEL: start//alias/1:LABEL}.get(start//particle_def/0:LABEL, start//particle_def/0:LABEL))).width Div GeV) | "
